@@ -118,6 +118,37 @@ def install_env(ctx, eng, faults=True, fail_only=None):
     S(r"^(std::fs::)?File::open::<", s_open("open"))
     S(r"^(std::fs::)?File::create::<", s_open("create"))
 
+    # OpenOptions builder: equivalent to File::create only with write + create + truncate
+    S(r"^(std::fs::)?OpenOptions::new$", lambda e, st, c, a, d: Outcome(OpaqueV("OpenOptions", None, {"flags": {}})))
+
+    def s_oo_flag(eng, st, callee, args, dty):
+        oo = deref_ref(eng, st, args[0])
+        flag = re.search(r"OpenOptions::(\w+)$", callee).group(1)
+        v = args[1]
+        oo.attrs["flags"] = dict(oo.attrs["flags"])
+        oo.attrs["flags"][flag] = v
+        return Outcome(args[0])
+    S(r"^(std::fs::)?OpenOptions::(read|write|append|truncate|create|create_new)$", s_oo_flag)
+    S(r"^<(std::fs::)?OpenOptions as (std::os::unix::fs::)?OpenOptionsExt>::(mode|custom_flags)$", lambda e, st, c, a, d: Outcome(a[0]))
+
+    def s_oo_open(eng, st, callee, args, dty):
+        oo = deref_ref(eng, st, args[0])
+        p = path_id(eng, st, args[1])
+        fl = oo.attrs["flags"]
+        on = lambda k: isinstance(fl.get(k), BoolV) and z3.is_true(z3.simplify(fl[k].t))
+        if on("write") and on("create") and on("truncate") and not on("append"):
+            kind = "create"
+        elif not (on("write") or on("append")):
+            kind = "open"
+        else:
+            kind = "open_opts"
+        f = OpaqueV("std::fs::File", "%s_fd%d" % (kind, next(eng.fresh_ids)), {"path": p, "mode": kind, "flags": sorted(k for k in fl if on(k))})
+        outs = [Outcome(ok(f), events=[Event("File::" + kind, [p, f.attrs["flags"]], f)])]
+        if env.may_fail("File::" + kind):
+            outs.append(Outcome(err("std::io::Error"), events=[Event("File::" + kind, [p, f.attrs["flags"]], "err")]))
+        return outs
+    S(r"^(std::fs::)?OpenOptions::open::<", s_oo_open)
+
     def s_fmeta(eng, st, callee, args, dty):
         f = deref_ref(eng, st, args[0])
         m = f.attrs.get("meta") if isinstance(f, OpaqueV) else None
